@@ -215,6 +215,14 @@ def c04(run):
     lh = with_harness(run, "layout")
     if usable and lh:
         seq_map_runs(run, lh, None, kinds=("mapof",), quick=(16, 300))
+    # "for any comparable key type": the linearizability theorems are about a hash *function* of the key; that the
+    # default hasher is one (equal keys hash equally, whatever memory they come from) is the premise H(K) the
+    # key-type catalogue checks against a builtin map, sequential histories included (C10 runs it deeper)
+    kh, err = R.build_keys_harness(run)
+    run.oblige("go build of the key-type catalogue (external module, go 1.23, replace => /repo)", kh is not None, err)
+    if kh:
+        for sd in SEEDS(run, 3):
+            R.native_run(run, "keys_s%d" % sd, [kh, "seed=%d" % sd, "nops=%d" % Q(run, 2000, 12000)], ["BAD", "PANIC", "panic:"])
     return R.finish(run, GAPS.get("C04", []))
 
 
@@ -269,6 +277,8 @@ def c06(run):
         sched_runs(run, h, ("cache", "cacheof"), "", ("CALLBACK", "NONLIN", "PREFILL"), quick=(120, 6))
         sched_runs(run, h, ("cache", "cacheof"), "range", ("CALLBACK",), quick=(40, 6), lin=False)
         sched_runs(run, h, ("cache", "cacheof"), "lazy", ("CALLBACK", "NONLIN"), quick=(80, 6))
+        # overlapping / nested cleanup passes after a warm-up pass (callback may start another pass)
+        sched_runs(run, h, ("cache", "cacheof"), "sweeps", ("CALLBACK", "PANIC", "DEADLOCK", "STEP-BUDGET"), quick=(60, 6), lin=False)
         trace_cache_runs(run, h, quick=(40, 4))
     if ch:
         R.native_run(run, "janitor_callbacks", [ch, "janitor"], ["BAD", "panic:"])
